@@ -83,11 +83,11 @@ Definition user_labella (u : dict) : dict := match dget u K_labella with Some (V
 Definition user_direction (u : dict) : oval :=
   match dget u K_direction with Some v => v | None => VStr (s2n "right") end.
 
-Definition merged_spec (u d : dict) : Prop :=
+Definition merged_spec (fresh : N) (u d : dict) : Prop :=
   (* every other key: the user's value if given, else the default *)
   (forall k, k <> K_latex -> k <> K_labella -> k <> K_scale -> dget d k = eff default_options u k) /\
   (* scale: the caller's object, else a fresh TimeScale of this timeline's own *)
-  dget d K_scale = Some (match dget u K_scale with Some v => v | None => VScale false end) /\
+  dget d K_scale = Some (match dget u K_scale with Some v => v | None => VScale false fresh end) /\
   (* latex: merged key by key *)
   (exists lm, dget d K_latex = Some (VDict lm) /\ forall j, dget lm j = eff default_latex (user_latex u) j) /\
   (* labella: a copy of the caller's engine options with the direction written in *)
@@ -96,9 +96,9 @@ Definition merged_spec (u d : dict) : Prop :=
 Lemma default_has_direction : dget default_options K_direction = Some (VStr (s2n "right")).
 Proof. reflexivity. Qed.
 
-Theorem tl_merge_spec : forall u, user_wf u -> exists d, tl_merge (Some u) = OOk d /\ merged_spec u d.
+Theorem tl_merge_spec : forall fresh u, user_wf u -> exists d, tl_merge fresh (Some u) = OOk d /\ merged_spec fresh u d.
 Proof.
-  intros u (ND & HL & HB). unfold tl_merge.
+  intros fresh u (ND & HL & HB). unfold tl_merge.
   (* latex *)
   set (lx := match dget u K_latex with
              | None => OOk default_latex
@@ -117,7 +117,7 @@ Proof.
   assert (Gopt : forall k, k <> K_latex -> dget options k = dget u k).
   { intros k Hk. unfold options. apply dget_dset_other. congruence. }
   assert (Gscale : dget options K_scale = dget u K_scale) by (apply Gopt; discriminate).
-  set (so := match dget options K_scale with Some _ => so0 | None => dset so0 K_scale (VScale false) end).
+  set (so := match dget options K_scale with Some _ => so0 | None => dset so0 K_scale (VScale false fresh) end).
   assert (G1 : forall k, k <> K_scale -> dget so k = dget so0 k).
   { intros k Hk. unfold so. destruct (dget options K_scale); [reflexivity|]. apply dget_dset_other. congruence. }
   (* labella *)
@@ -144,7 +144,7 @@ Proof.
 Qed.
 
 (* options=None behaves as options={} *)
-Theorem tl_merge_none : tl_merge None = tl_merge (Some []).
+Theorem tl_merge_none : forall fresh, tl_merge fresh None = tl_merge fresh (Some []).
 Proof. reflexivity. Qed.
 
 (* after the merge every documented key is there, whatever the user omitted *)
@@ -159,12 +159,12 @@ Proof.
   repeat (destruct H as [H|H]; [subst k; discriminate|]). contradiction.
 Qed.
 
-Theorem merged_has_all_keys : forall u d, merged_spec u d ->
+Theorem merged_has_all_keys : forall fresh u d, merged_spec fresh u d ->
   (forall k, In k top_keys -> dget d k <> None) /\
   (exists lm, dget d K_latex = Some (VDict lm) /\ forall j, In j latex_keys -> dget lm j <> None) /\
   (exists l, dget d K_labella = Some (VDict l) /\ dget l E_direction = Some (user_direction u)).
 Proof.
-  intros u d (H1 & H2 & (lm & H3 & H3') & H4). repeat split.
+  intros fresh u d (H1 & H2 & (lm & H3 & H3') & H4). repeat split.
   - intros k Hk. destruct (N.eq_dec k K_latex) as [->|N1]; [rewrite H3; discriminate|].
     destruct (N.eq_dec k K_labella) as [->|N2]; [rewrite H4; discriminate|].
     destruct (N.eq_dec k K_scale) as [->|N3]; [rewrite H2; discriminate|].
@@ -184,7 +184,10 @@ Definition is_colour (v : oval) : Prop := exists c, as_colour v = OOk c.
 Definition num_at (m : dict) (k : N) : Prop := exists v q, dget m k = Some v /\ as_num v = OOk q.
 Definition is_four (v : oval) : Prop :=
   exists m, v = VDict m /\ num_at m K_left /\ num_at m K_right /\ num_at m K_top /\ num_at m K_bottom.
-Definition is_scale (v : oval) : Prop := exists b, v = VScale b.
+Definition is_scale (v : oval) : Prop := exists b i, v = VScale b i.
+Definition is_str (v : oval) : Prop := exists t, v = VStr t.
+Definition is_pos (v : oval) : Prop := exists q, as_num v = OOk q /\ (0 < q)%Q.
+Definition is_nonneg (v : oval) : Prop := exists q, as_num v = OOk q /\ (0 <= q)%Q.
 Definition is_algo (v : oval) : Prop := exists a, as_algo v = OOk a.
 Definition is_optnum (v : oval) : Prop := exists a, as_optnum v = OOk a.
 
@@ -209,18 +212,34 @@ Record user_ok (u : dict) : Prop := mkUserOk {
   uo_alg : given (user_labella u) E_algorithm is_algo;
   uo_min : given (user_labella u) E_minPos is_optnum;
   uo_max : given (user_labella u) E_maxPos is_optnum;
-  uo_den : given (user_labella u) E_density is_num;
-  uo_sp : given (user_labella u) E_nodeSpacing is_num;
-  uo_sw : given (user_labella u) E_stubWidth is_num;
-  uo_ls : given (user_labella u) E_lineSpacing is_num
+  uo_den : given (user_labella u) E_density is_pos;            (* the layer estimate divides by it *)
+  uo_sp : given (user_labella u) E_nodeSpacing is_nonneg;
+  uo_sw : given (user_labella u) E_stubWidth is_nonneg;
+  uo_ls : given (user_labella u) E_lineSpacing is_nonneg;
+  (* keys that `resolve` does not read but the export path does (emitters, parse_items): *)
+  uo_xoff : given u K_textXOffset is_str;                        (* SVG attribute values must be strings *)
+  uo_yoff : given u K_textYOffset is_str;
+  uo_timefn : given u K_timeFn (fun v => v = VFun);
+  uo_textfn : given u K_textFn (fun v => v = VFun \/ v = VNone);  (* None is handled by Timeline.textFn *)
+  uo_domain : given u K_domain (fun v => truthy v = false);       (* an explicit domain enters separately *)
+  uo_lx_str : forall k, In k [L_fontsize; L_borderThickness; L_axisThickness; L_tickThickness; L_linkThickness; L_preamble] ->
+              given (user_latex u) k is_str;                      (* concatenated into the TikZ text *)
+  uo_lx_opts : given (user_latex u) L_latexmkOptions (fun v => exists l, v = VStrs l)
 }.
 
-Lemma sub_given : forall u d k (P : oval -> Prop), merged_spec u d ->
+Lemma given_weaken : forall u k (P Q : oval -> Prop), (forall v, P v -> Q v) -> given u k P -> given u k Q.
+Proof. intros u k P Q H. unfold given. destruct (dget u k); auto. Qed.
+Lemma pos_num : forall v, is_pos v -> exists a, as_num v = OOk a.
+Proof. intros v (q & E & _). now exists q. Qed.
+Lemma nonneg_num : forall v, is_nonneg v -> exists a, as_num v = OOk a.
+Proof. intros v (q & E & _). now exists q. Qed.
+
+Lemma sub_given : forall fresh u d k (P : oval -> Prop), merged_spec fresh u d ->
   k <> K_latex -> k <> K_labella -> k <> K_scale ->
   given u k P -> (exists v, dget default_options k = Some v /\ P v) ->
   exists v, sub d k = OOk v /\ P v.
 Proof.
-  intros u d k P (H1 & _) N1 N2 N3 G (v0 & D0 & P0). unfold sub. rewrite H1 by assumption.
+  intros fresh u d k P (H1 & _) N1 N2 N3 G (v0 & D0 & P0). unfold sub. rewrite H1 by assumption.
   unfold eff, given in *. destruct (dget u k) as [v|].
   - exists v. now split.
   - rewrite D0. exists v0. now split.
@@ -246,61 +265,65 @@ Proof.
   eexists. reflexivity.
 Qed.
 
+Lemma as_colour_if_ok : forall b v c, as_colour v = OOk c -> exists c', as_colour_if b v = OOk c'.
+Proof. intros b v c E. unfold as_colour_if. rewrite E. destruct b; eexists; reflexivity. Qed.
+
 Ltac default_fact := eexists; split; [reflexivity|]; try (eexists; reflexivity).
 
 (* C11, the options clause: with options omitted (None), empty, or ANY subset of the
    documented keys whose given values have the documented kinds, the constructor's merge
    succeeds and every subscript the renderers, the axis set-up and the engine perform on the
    merged options succeeds - no KeyError, no TypeError *)
-Theorem resolve_total : forall u, user_ok u -> exists r, resolve (Some u) = OOk r.
+Theorem resolve_total : forall fresh u, user_ok u -> exists r, resolve fresh (Some u) = OOk r.
 Proof.
-  intros u U. destruct (tl_merge_spec u (uo_wf u U)) as (d & Em & S).
+  intros fresh u U. destruct (tl_merge_spec fresh u (uo_wf u U)) as (d & Em & S).
   unfold resolve. rewrite Em. cbn [obind].
   (* direction *)
-  destruct (sub_given u d K_direction is_dir S ltac:(discriminate) ltac:(discriminate) ltac:(discriminate) (uo_dir u U))
+  destruct (sub_given fresh u d K_direction is_dir S ltac:(discriminate) ltac:(discriminate) ltac:(discriminate) (uo_dir u U))
     as (vv1 & EE1 & [x Ex]); [default_fact|]. rewrite EE1; cbn [obind]; rewrite Ex; cbn [obind].
-  destruct (sub_given u d K_initialWidth is_num S ltac:(discriminate) ltac:(discriminate) ltac:(discriminate) (uo_iw u U))
+  destruct (sub_given fresh u d K_initialWidth is_num S ltac:(discriminate) ltac:(discriminate) ltac:(discriminate) (uo_iw u U))
     as (vv2 & EE2 & [q1 Eq1]); [default_fact|]. rewrite EE2; cbn [obind]; rewrite Eq1; cbn [obind].
-  destruct (sub_given u d K_initialHeight is_num S ltac:(discriminate) ltac:(discriminate) ltac:(discriminate) (uo_ih u U))
+  destruct (sub_given fresh u d K_initialHeight is_num S ltac:(discriminate) ltac:(discriminate) ltac:(discriminate) (uo_ih u U))
     as (vv3 & EE3 & [q2 Eq2]); [default_fact|]. rewrite EE3; cbn [obind]; rewrite Eq2; cbn [obind].
   (* margin *)
-  destruct (sub_given u d K_margin is_four S ltac:(discriminate) ltac:(discriminate) ltac:(discriminate) (uo_margin u U))
+  destruct (sub_given fresh u d K_margin is_four S ltac:(discriminate) ltac:(discriminate) ltac:(discriminate) (uo_margin u U))
     as (vv4 & EE4 & FF4).
   { eexists. split; [reflexivity|]. eexists. split; [reflexivity|].
     repeat split; eexists; eexists; (split; [reflexivity|reflexivity]). }
   destruct (four_ok d K_margin vv4 EE4 FF4) as [[[[ml mr] mt] mb] Emg]. rewrite Emg; cbn [obind].
-  destruct (sub_given u d K_layerGap is_num S ltac:(discriminate) ltac:(discriminate) ltac:(discriminate) (uo_gap u U))
+  destruct (sub_given fresh u d K_layerGap is_num S ltac:(discriminate) ltac:(discriminate) ltac:(discriminate) (uo_gap u U))
     as (vv5 & EE5 & [q3 Eq3]); [default_fact|]. rewrite EE5; cbn [obind]; rewrite Eq3; cbn [obind].
-  destruct (sub_given u d K_labelPadding is_four S ltac:(discriminate) ltac:(discriminate) ltac:(discriminate) (uo_pad u U))
+  destruct (sub_given fresh u d K_labelPadding is_four S ltac:(discriminate) ltac:(discriminate) ltac:(discriminate) (uo_pad u U))
     as (vv6 & EE6 & FF6).
   { eexists. split; [reflexivity|]. eexists. split; [reflexivity|].
     repeat split; eexists; eexists; (split; [reflexivity|reflexivity]). }
   destruct (four_ok d K_labelPadding vv6 EE6 FF6) as [[[[pl pr] pt] pb] Epd]. rewrite Epd; cbn [obind].
-  destruct (sub_given u d K_dotRadius is_num S ltac:(discriminate) ltac:(discriminate) ltac:(discriminate) (uo_dotr u U))
+  destruct (sub_given fresh u d K_dotRadius is_num S ltac:(discriminate) ltac:(discriminate) ltac:(discriminate) (uo_dotr u U))
     as (vv7 & EE7 & [q4 Eq4]); [default_fact|]. rewrite EE7; cbn [obind]; rewrite Eq4; cbn [obind].
   (* showTicks, showBorder: any value, only its truth value is read *)
-  destruct (sub_given u d K_showTicks (fun _ => True) S ltac:(discriminate) ltac:(discriminate) ltac:(discriminate))
+  destruct (sub_given fresh u d K_showTicks (fun _ => True) S ltac:(discriminate) ltac:(discriminate) ltac:(discriminate))
     as (tk & EE8 & _); [unfold given; destruct (dget u K_showTicks); exact I|eexists; split; [reflexivity|exact I]|].
   rewrite EE8; cbn [obind].
-  destruct (sub_given u d K_showBorder (fun _ => True) S ltac:(discriminate) ltac:(discriminate) ltac:(discriminate))
+  destruct (sub_given fresh u d K_showBorder (fun _ => True) S ltac:(discriminate) ltac:(discriminate) ltac:(discriminate))
     as (bd & EE9 & _); [unfold given; destruct (dget u K_showBorder); exact I|eexists; split; [reflexivity|exact I]|].
   rewrite EE9; cbn [obind].
   (* latex.tickCross *)
-  destruct (merged_has_all_keys u d S) as (_ & (lm & Elm & Hlm) & _).
+  destruct (merged_has_all_keys fresh u d S) as (_ & (lm & Elm & Hlm) & _).
   unfold sub at 1. rewrite Elm. cbn [obind].
   assert (Hc : dget lm L_tickCross <> None) by (apply Hlm; unfold latex_keys; simpl; tauto).
   unfold sub at 1. destruct (dget lm L_tickCross) as [cross|]; [|congruence]. cbn [obind].
   (* colours *)
-  destruct (sub_given u d K_dotColor is_colour S ltac:(discriminate) ltac:(discriminate) ltac:(discriminate) (uo_c1 u U))
+  destruct (sub_given fresh u d K_dotColor is_colour S ltac:(discriminate) ltac:(discriminate) ltac:(discriminate) (uo_c1 u U))
     as (vv10 & EE10 & [c1 Ec1]); [default_fact|]. rewrite EE10; cbn [obind]; rewrite Ec1; cbn [obind].
-  destruct (sub_given u d K_labelBgColor is_colour S ltac:(discriminate) ltac:(discriminate) ltac:(discriminate) (uo_c2 u U))
+  destruct (sub_given fresh u d K_labelBgColor is_colour S ltac:(discriminate) ltac:(discriminate) ltac:(discriminate) (uo_c2 u U))
     as (vv11 & EE11 & [c2 Ec2]); [default_fact|]. rewrite EE11; cbn [obind]; rewrite Ec2; cbn [obind].
-  destruct (sub_given u d K_labelTextColor is_colour S ltac:(discriminate) ltac:(discriminate) ltac:(discriminate) (uo_c3 u U))
+  destruct (sub_given fresh u d K_labelTextColor is_colour S ltac:(discriminate) ltac:(discriminate) ltac:(discriminate) (uo_c3 u U))
     as (vv12 & EE12 & [c3 Ec3]); [default_fact|]. rewrite EE12; cbn [obind]; rewrite Ec3; cbn [obind].
-  destruct (sub_given u d K_linkColor is_colour S ltac:(discriminate) ltac:(discriminate) ltac:(discriminate) (uo_c4 u U))
+  destruct (sub_given fresh u d K_linkColor is_colour S ltac:(discriminate) ltac:(discriminate) ltac:(discriminate) (uo_c4 u U))
     as (vv13 & EE13 & [c4 Ec4]); [default_fact|]. rewrite EE13; cbn [obind]; rewrite Ec4; cbn [obind].
-  destruct (sub_given u d K_borderColor is_colour S ltac:(discriminate) ltac:(discriminate) ltac:(discriminate) (uo_c5 u U))
-    as (vv14 & EE14 & [c5 Ec5]); [default_fact|]. rewrite EE14; cbn [obind]; rewrite Ec5; cbn [obind].
+  destruct (sub_given fresh u d K_borderColor is_colour S ltac:(discriminate) ltac:(discriminate) ltac:(discriminate) (uo_c5 u U))
+    as (vv14 & EE14 & [c5 Ec5]); [default_fact|]. rewrite EE14; cbn [obind].
+  destruct (as_colour_if_ok (truthy bd) _ _ Ec5) as [c5' Ec5']. rewrite Ec5'; cbn [obind].
   (* the engine options *)
   destruct S as (S1 & S2 & S3 & S4).
   unfold sub at 1. rewrite S4. cbn [obind].
@@ -311,32 +334,52 @@ Proof.
   rewrite Emn; cbn [obind].
   destruct (opt_key_given (user_labella u) E_maxPos as_optnum (user_direction u) ltac:(discriminate) (uo_max u U)) as [mx Emx].
   rewrite Emx; cbn [obind].
-  destruct (opt_key_given (user_labella u) E_density as_num (user_direction u) ltac:(discriminate) (uo_den u U)) as [de Ede].
+  destruct (opt_key_given (user_labella u) E_density as_num (user_direction u) ltac:(discriminate) (given_weaken _ _ _ _ pos_num (uo_den u U))) as [de Ede].
   rewrite Ede; cbn [obind].
-  destruct (opt_key_given (user_labella u) E_nodeSpacing as_num (user_direction u) ltac:(discriminate) (uo_sp u U)) as [sp Esp].
+  destruct (opt_key_given (user_labella u) E_nodeSpacing as_num (user_direction u) ltac:(discriminate) (given_weaken _ _ _ _ nonneg_num (uo_sp u U))) as [sp Esp].
   rewrite Esp; cbn [obind].
-  destruct (opt_key_given (user_labella u) E_stubWidth as_num (user_direction u) ltac:(discriminate) (uo_sw u U)) as [sw Esw].
+  destruct (opt_key_given (user_labella u) E_stubWidth as_num (user_direction u) ltac:(discriminate) (given_weaken _ _ _ _ nonneg_num (uo_sw u U))) as [sw Esw].
   rewrite Esw; cbn [obind].
-  destruct (opt_key_given (user_labella u) E_lineSpacing as_num (user_direction u) ltac:(discriminate) (uo_ls u U)) as [ls Els].
+  destruct (opt_key_given (user_labella u) E_lineSpacing as_num (user_direction u) ltac:(discriminate) (given_weaken _ _ _ _ nonneg_num (uo_ls u U))) as [ls Els].
   rewrite Els; cbn [obind].
   (* the scale object *)
   unfold sub. rewrite S2. cbn [obind].
-  assert (Hs : is_scale (match dget u K_scale with Some vv14 => vv14 | None => VScale false end)).
-  { generalize (uo_scale u U). unfold given. destruct (dget u K_scale); [tauto|intros _; now exists false]. }
-  destruct Hs as [lin ->]. eexists. reflexivity.
+  assert (Hs : is_scale (match dget u K_scale with Some vv14 => vv14 | None => VScale false fresh end)).
+  { generalize (uo_scale u U). unfold given. destruct (dget u K_scale); [tauto|intros _; now exists false, fresh]. }
+  destruct Hs as (lin & sid & ->). eexists. reflexivity.
 Qed.
 
-Theorem resolve_none_total : exists r, resolve None = OOk r.
-Proof. eexists. vm_compute. reflexivity. Qed.
+Theorem resolve_none_total : forall fresh, exists r, resolve fresh None = OOk r.
+Proof. intro fresh. eexists. cbv -[N.eqb]. reflexivity. Qed.
 
-(* the timeline uses its OWN fresh scale exactly when the caller passed none *)
-Theorem resolve_own_scale : forall u r, resolve (Some u) = OOk r ->
-  r_own_scale r = match dget u K_scale with None => true | Some _ => false end.
+(* WHICH scale object the timeline points to: the caller's (its identity), else the TimeScale
+   this very constructor call created - never anything else; in particular never the
+   module-level default object (identity 0) unless the caller passed that object in *)
+Theorem resolve_scale_identity : forall fresh u r, user_wf u -> resolve fresh (Some u) = OOk r ->
+  r_scale_id r = match dget u K_scale with Some (VScale _ i) => i | _ => fresh end.
 Proof.
-  intros u r H. unfold resolve in H.
+  intros fresh u r W H. destruct (tl_merge_spec fresh u W) as (d & Em & S).
+  unfold resolve in H. rewrite Em in H. cbn [obind] in H.
+  destruct S as (_ & S2 & _).
   repeat match type of H with
+         | obind (sub d K_scale) _ = OOk _ => unfold sub at 1 in H; rewrite S2 in H; cbn [obind] in H
          | obind ?x _ = OOk _ => destruct x as [?a|?e]; cbn [obind] in H; [|discriminate]
-         | match ?x with _ => _ end = OOk _ => destruct x; try discriminate
+         | match ?x with _ => _ end = OOk _ => destruct x eqn:?; try discriminate
          end.
-  inversion H. reflexivity.
+  all: inversion H; subst; cbn [r_scale_id];
+    match goal with
+    | E : match dget ?x K_scale with _ => _ end = VScale _ _ |- _ =>
+        destruct (dget x K_scale) as [v|]; [subst v; reflexivity|inversion E; reflexivity]
+    end.
 Qed.
+
+Corollary resolve_scale_not_default : forall fresh u r, user_wf u -> resolve fresh (Some u) = OOk r ->
+  fresh <> 0%N -> (forall b i, dget u K_scale = Some (VScale b i) -> i <> 0%N) -> r_scale_id r <> 0%N.
+Proof.
+  intros fresh u r W H F C. rewrite (resolve_scale_identity fresh u r W H).
+  destruct (dget u K_scale) as [[| | | | | | |b i]|] eqn:E; try exact F. exact (C b i eq_refl).
+Qed.
+
+(* the same without a caller dict *)
+Theorem resolve_none_scale : forall fresh r, resolve fresh None = OOk r -> r_scale_id r = fresh.
+Proof. intros fresh r H. cbv -[N.eqb] in H. inversion H. reflexivity. Qed.
